@@ -20,7 +20,7 @@ EXPLANATION = (
 )
 ASSUMPTIONS = ["CPython ast parses /repo's source as the interpreter would",
                "syntactic support over-approximates dependence; a term that is present but cancelled algebraically is not detected"]
-MIN_INSTANCES = {"R-12a": 10, "R-12b": 8, "R-12c": 4, "R-12d": 8}
+MIN_INSTANCES = {"R-12e": 6, "R-12a": 10, "R-12b": 8, "R-12c": 4, "R-12d": 8}
 
 W = {"self.w_en", "self.w_rdy"}
 R_ = {"self.r_en", "self.r_rdy"}
@@ -268,4 +268,37 @@ def r12d(model, ctx):
               f"SyncFIFOBuffered depth-1 special case deviates: {sorted(got ^ want)}", f"{FIFO}:{fn.lineno}")
 
 
-RULES = [("R-12a", r12a), ("R-12b", r12b), ("R-12c", r12c), ("R-12d", r12d)]
+def r12e(model, ctx):
+    """the queue's storage accepts every shape and depth, including the width-0 shape and depth 0: Memory's constructor
+    decides whether an argument was given by `is None`, never by its truth value (0, unsigned(0) and [] are legal values)"""
+    R = "R-12e"
+    MEMLIB = "amaranth/lib/memory.py"
+    f = model.func(f"{MEMLIB}::Memory.__init__")
+    n = 0
+    for node in ast.walk(f):
+        if not isinstance(node, (ast.If, ast.IfExp, ast.While, ast.Assert)):
+            continue
+        t = node.test
+        names = {x.id for x in ast.walk(t) if isinstance(x, ast.Name)} & {"shape", "depth", "init", "data"}
+        if not names:
+            continue
+        n += 1
+        atoms = t.values if isinstance(t, ast.BoolOp) else [t]
+        for a in atoms:
+            if not ({x.id for x in ast.walk(a) if isinstance(x, ast.Name)} & {"shape", "depth", "init", "data"}):
+                continue
+            presence = isinstance(a, ast.Compare) and len(a.ops) == 1 and isinstance(a.ops[0], (ast.Is, ast.IsNot)) and \
+                isinstance(a.comparators[0], ast.Constant) and a.comparators[0].value is None and isinstance(a.left, ast.Name)
+            isinst = (isinstance(a, ast.Call) and dotted(a.func) == "isinstance") or \
+                (isinstance(a, ast.UnaryOp) and isinstance(a.op, ast.Not) and isinstance(a.operand, ast.Call) and dotted(a.operand.func) == "isinstance")
+            truth = isinstance(a, ast.Name) or (isinstance(a, ast.UnaryOp) and isinstance(a.op, ast.Not) and isinstance(a.operand, ast.Name)) or \
+                (isinstance(a, ast.Compare) and len(a.ops) == 1 and isinstance(a.comparators[0], ast.Constant) and
+                 a.comparators[0].value in (0, False) and not isinstance(a.ops[0], (ast.Is, ast.IsNot)))
+            need(presence or isinst or truth, f"Memory.__init__: unrecognised argument test `{unparse(a)}`")
+            ctx.check(not truth, R, f"Memory.__init__:{unparse(a)}", "arguments are tested for presence with `is None`",
+                      f"Memory.__init__ tests `{unparse(a)}` by truth value: shape 0 (a zero-width queue), depth 0 and an empty init "
+                      f"are legal and must not be taken for a missing argument", f"{MEMLIB}:{node.lineno}")
+    need(n >= 6, "Memory.__init__: the argument presence tests were not found")
+
+
+RULES = [("R-12e", r12e), ("R-12a", r12a), ("R-12b", r12b), ("R-12c", r12c), ("R-12d", r12d)]
